@@ -42,6 +42,15 @@ T = {
  "C05": (True, "E2", "the same bounded-exhaustive program enumeration, with an exhaustion algebra in the interpreter (exhausted-after-T-calls per node) and exact-count oracles for until_exhausted, lift, take and interleaved output",
          "For every program: is_exhausted() before and after every next(), three further calls after exhaustion, until_exhausted()/lift() yielding exactly T frames and then None for good, interleaved output yielding exactly T x channels samples, take(n) for every n up to T+2; interleaved sources of every sample count 0..3N+1 (trailing partial frame dropped).",
          "Same bounds as C04. Trusted: rustc/LLVM, the interpreter's exhaustion algebra as stated in the property.", "DESIGN.md §4 C05"),
+ "C12": (True, "E1", "stateless exhaustive exploration of every A/B pull interleaving up to a length bound on the real Fork (fresh object per history, no state merging) + explicit-state stateright BFS to fixpoint on (lead, ring phase) via witness replay",
+         "Every in-boundary interleaving of length 16 (quick) / 20 (thorough) for capacities 1..4, every ring start offset, by_ref held / re-split every step / by_rc / by_ref-then-by_rc at every switch point; after every step: k-th frame of each branch, source pull count, both pending counts; fork() constructor panic on every non-empty ring.",
+         "Interleavings longer than the bound are covered only by the merged run, which relies on the fork depending on positions only through (lead, ring phase); capacities above 4 not explored. Trusted: rustc/LLVM, stateright BFS.", "DESIGN.md §4 C12"),
+ "C13": (True, "E1", "stateless exhaustive exploration of every send/next/drop history up to a depth bound on the real Bus (fresh object per history) + explicit-state stateright BFS to fixpoint on lag vectors via witness replay; backlog observed through a cfg-guarded hook",
+         "Every history to depth 12 (quick) / 15 (thorough) with <=3 live outputs and <=4 sends over an infinite and a 3-frame instrumented source: frames per output, attach index, pending counts, source pulls, backlog length == slowest lag (hook), is_exhausted; merged run with unbounded sends and lags <=4.",
+         "Depth, live-output and lag bounds as stated; the merged run relies on the bus using only relative offsets. Trusted: rustc/LLVM, stateright BFS, the additive hook Bus::verif_backlog_len.", "DESIGN.md §4 C13"),
+ "C14": (True, "E1", "stateless exhaustive exploration of every next/next_frames(k)/is_exhausted history from every (capacity, prefill, start offset, source length) initial state on the real Buffered + explicit-state stateright BFS to fixpoint via witness replay",
+         "340 initial states (capacity 1..4 x every (start,len) prefill x source length 0..2cap+1); every history to depth 5 (quick) / 7 (thorough); merged BFS on (ring start, ring len, pulled, delivered) to fixpoint; until_exhausted() from every initial state; oracle: prefill ++ source ++ equilibrium, pulls in units of capacity only on empty, exact exhaustion flag.",
+         "Capacities above 4 and sources longer than 2cap+1 are not explored. Trusted: rustc/LLVM, stateright BFS.", "DESIGN.md §4 C14"),
 }
 ALL = ["C%02d" % i for i in range(1, 21)]
 
